@@ -2,6 +2,7 @@
 consistent.  STORE closure search over register/deregister/load calls
 against a dict reference; complete enumeration of single-fault mutants of
 a valid model module; loader fault list; ancillary dictionaries."""
+import itertools
 import collections
 import copy
 import os
@@ -245,6 +246,74 @@ def closure_part(rep, tmp):
                                  "closed": True})
     rep.sample({"closure_state": [list(x) for x in sorted(seen)[-1]],
                 "op": list(ops[-1])})
+
+
+def handle_part(rep, depth=4):
+    """one module object under development: registered, given another key,
+    registered again, and the models it was registered as deregistered
+    through the objects `register_model` returned - every sequence up to
+    the depth; deregistering removes exactly the key of that registration"""
+    from nanite.model import logic
+    ops = [("reg",), ("rekey", "vkA"), ("rekey", "vkB"), ("dereg", 0),
+           ("dereg", 1)]
+    nseq = ntr = 0
+    for n in range(1, depth + 1):
+        for seq in itertools.product(ops, repeat=n):
+            nreg = 0
+            ok = True
+            for op in seq:
+                if op[0] == "dereg" and op[1] >= nreg:
+                    ok = False
+                    break
+                nreg += op[0] == "reg"
+            if not ok or seq[-1][0] == "rekey":
+                continue
+            nseq += 1
+            with Registry() as reg:
+                shipped = set(reg.saved)
+                M, _ = make_module("vkA", 1.0)
+                handles, ref = [], set()
+                case = {"kind": "handle", "seq": [list(o) for o in seq]}
+                for i, op in enumerate(seq):
+                    ntr += 1
+                    try:
+                        if op[0] == "reg":
+                            handles.append((logic.register_model(M),
+                                            M.model_key))
+                            ref.add(M.model_key)
+                        elif op[0] == "rekey":
+                            M.model_key = op[1]
+                        else:
+                            h, key = handles[op[1]]
+                            gone = key not in ref
+                            ref.discard(key)
+                            try:
+                                logic.deregister_model(h)
+                            except KeyError:
+                                if not gone:
+                                    raise
+                    except BaseException as e:
+                        if isinstance(e, (KeyboardInterrupt, SystemExit,
+                                          MemoryError)):
+                            raise
+                        rep.violate(V(PROP, "registry-raises",
+                                      site="handle:" + op[0],
+                                      witness=f"step{i}", detail=repr(e),
+                                      case=case, kind="handle"))
+                        break
+                    got = set(logic.models_available) - shipped
+                    if got != ref or not shipped <= set(
+                            logic.models_available):
+                        rep.violate(V(
+                            PROP, "registry-mismatch", site="handle:" + op[0],
+                            witness=f"step{i}", detail="harness keys "
+                            f"registered {sorted(got)}, reference "
+                            f"{sorted(ref)} after {list(seq[:i + 1])}",
+                            case=case, kind="handle"))
+                        break
+    rep.add("transitions", ntr)
+    rep.add("traces_validated_against_impl", ntr)
+    rep.set("handle_sequences", nseq)
 
 
 def _check_defaults(rep, md, case, wit):
@@ -762,6 +831,8 @@ def _run_parts(rep, only=None):
         with Registry():
             if only in (None, "closure"):
                 closure_part(rep, tmp)
+            if only in (None, "handle"):
+                handle_part(rep)
             if only in (None, "mutant"):
                 mutant_part(rep)
             if only in (None, "loader"):
